@@ -69,6 +69,7 @@ func vh_C11_L1_counter_exact() {
 			}
 		}
 		vassert(r.getNumBytes() == vRQHeldBytes(r), "byte counter equals the user bytes held")
+		vassert(len(r.orderedMIDMap) == len(r.orderedMID), "the index of ordered I-DATA messages holds exactly the messages queued (nothing is retained behind the counter)")
 	}
 	vobserve("bytes", uint64(r.getNumBytes()))
 	vcover("end")
@@ -195,3 +196,24 @@ func vh_C11_L5_window_follows_buffer() {
 // C11.L6: the advertised window returns to the full buffer after an abandoned, partially
 // received message has been skipped (same obligation as vh_C07_L1, which ends with it).
 func vh_C11_L6_return_to_full_after_skip() { vh_C07_L1_abandoned_does_not_block() }
+
+// C11.L2c: one FORWARD-TSN that skips an ordered message of a stream also purges the stale
+// unordered fragments that stream holds (a FORWARD-TSN never lists a stream for its
+// unordered data): afterwards nothing is held and the whole buffer is advertised again.
+func vh_C11_L2_skip_purges_ordered_and_unordered_of_one_stream() {
+	a, _ := vNewAssocOpts(vAssocOpts{recvBuf: 8})
+	a.useForwardTSN = true
+	cum := a.peerLastTSN()
+	u := vDataChunk(a, cum+2, 4, true, 2) // first fragment of an unordered message, never completed
+	u.endingFragment = false
+	o := vDataChunk(a, cum+3, 4, false, 3) // first fragment of an ordered message, never completed
+	o.endingFragment = false
+	vassert(vDeliver(a, u) == nil && vDeliver(a, o) == nil, "DATA ok")
+	vassert(a.getMyReceiverWindowCredit() == 3, "five bytes held")
+	fwd := &chunkForwardTSN{newCumulativeTSN: cum + 3, streams: []chunkForwardTSNStream{{identifier: 4, sequence: o.streamSequenceNumber}}}
+	vassert(vDeliver(a, fwd) == nil, "FORWARD-TSN ok")
+	s := a.streams[4]
+	vassert(s != nil && s.getNumBytesInReassemblyQueue() == 0, "both abandoned fragments are gone")
+	vassert(a.getMyReceiverWindowCredit() == 8, "and the advertised window is the full buffer again")
+	vcover("end")
+}
